@@ -148,6 +148,7 @@ func genMsg(p *prng.R, id string, nrcpt int, allowDup bool) *msgSpec {
 
 type runResult struct {
 	Quiescent  bool
+	Runaway    string   // the target saw far more attempts than max_tries allows: waiting was stopped
 	Broken     []string // *.meta_broken files seen (queue quarantined the message after a panic)
 	Leftover   []string
 	WatchdogAt string
@@ -165,7 +166,7 @@ func msgHeaderBody(m *msgSpec) (textproto.Header, buffer.Buffer) {
 
 // enqueueAndWait hands every message of the scenario to a fresh queue on top
 // of target, waits for quiescence (spool directory empty) and closes the queue.
-func enqueueAndWait(t *testing.T, sc *scenario, target, bounce module.DeliveryTarget, lg *mx.Log) runResult {
+func enqueueAndWait(t *testing.T, sc *scenario, target, bounce module.DeliveryTarget, lg *mx.Log, starts func() int) runResult {
 	var res runResult
 	dir, err := os.MkdirTemp("", "c01q")
 	if err != nil {
@@ -214,11 +215,19 @@ func enqueueAndWait(t *testing.T, sc *scenario, target, bounce module.DeliveryTa
 
 	// Quiescence = spool directory empty. The watchdog restarts whenever the
 	// event log grows, its expiry alone is never a verdict.
+	// A queue that retries without bound never becomes quiescent while the log
+	// keeps growing; that is a logical condition (attempts far beyond what
+	// max_tries allows for all messages together), not a timer.
+	runawayCap := len(sc.Msgs) * (4*sc.MaxTries + 8)
 	lastLen, lastProgress := lg.Len(), time.Now()
 	for {
 		es, _ := os.ReadDir(dir)
 		if len(es) == 0 {
 			res.Quiescent = true
+			break
+		}
+		if n := starts(); n > runawayCap {
+			res.Runaway = fmt.Sprintf("%d attempts started for %d message(s) with max_tries=%d", n, len(sc.Msgs), sc.MaxTries)
 			break
 		}
 		res.Broken = res.Broken[:0]
@@ -270,14 +279,14 @@ func reportsOf(lg *mx.Log, bounce string) []report {
 }
 
 // evaluate applies the oracle to every message of the scenario and reports.
-func evaluate(r *rep.Reporter, c *rep.Case, sc *scenario, res runResult, lg *mx.Log, target, bounce, extra string,
+func evaluate(r *rep.Reporter, c *rep.Case, sc *scenario, res runResult, lg *mx.Log, target, bounce string, noUTF8Hop bool,
 	srvFor func(m *msgSpec, atts []*attempt), witnessExtra map[string]any) {
 	if len(res.Broken) > 0 {
 		c.Violation("lost/kind="+sc.Kind+"/message-quarantined-after-panic", "the queue renamed the message's meta-data to .meta_broken after a panic in a delivery attempt; its recipients are neither delivered nor reported",
 			map[string]any{"scenario": sc.literal(), "spool": res.Leftover, "queue_log": tail(res.QueueLog, 40), "global_log": tail(globalLog.take(), 40), "events": lg.Strings(200), "extra": witnessExtra})
 		return
 	}
-	if !res.Quiescent {
+	if !res.Quiescent && res.Runaway == "" {
 		c.Inconclusive("spool not empty at watchdog expiry: " + res.WatchdogAt + " left=" + strings.Join(res.Leftover, ","))
 		return
 	}
@@ -304,7 +313,7 @@ func evaluate(r *rep.Reporter, c *rep.Case, sc *scenario, res runResult, lg *mx.
 				mine = append(mine, rp)
 			}
 		}
-		v := judge(oracleCfg{Kind: sc.Kind, Extra: extra, MaxTries: sc.MaxTries, Suppressed: sc.suppressed(m)}, m, atts, mine)
+		v := judge(oracleCfg{Kind: sc.Kind, NoUTF8Hop: noUTF8Hop, MaxTries: sc.MaxTries, Suppressed: sc.suppressed(m), NotQuiescent: !res.Quiescent}, m, atts, mine)
 		r.Count("messages", 1)
 		r.Count("attempts", int64(len(atts)))
 		r.Count("retries_observed", int64(v.Retries))
@@ -355,7 +364,7 @@ func evaluate(r *rep.Reporter, c *rep.Case, sc *scenario, res runResult, lg *mx.
 		for _, f := range v.Findings {
 			c.Violation(f.Sig, f.What, map[string]any{
 				"scenario": sc.literal(), "message": m.ID, "attempts": as, "reports": rs, "recipient_states": states,
-				"queue_log": tail(res.QueueLog, 60), "events": lg.Strings(300), "extra": witnessExtra,
+				"queue_log": tail(res.QueueLog, 60), "events": lg.Strings(300), "extra": witnessExtra, "runaway": res.Runaway,
 			})
 		}
 	}
@@ -380,11 +389,8 @@ func runScripted(t *testing.T, r *rep.Reporter, c *rep.Case, sc *scenario, pl *p
 	if sc.Bounce {
 		bounce = mx.NewTarget(bname, lg)
 	}
-	res := enqueueAndWait(t, sc, tgt, bounce, lg)
-	for _, d := range tgt.Open() {
-		_ = d
-		r.Count("deliveries_left_open_not_judged", 1)
-	}
+	res := enqueueAndWait(t, sc, tgt, bounce, lg, pl.starts)
+	r.Count("deliveries_left_open_not_judged", int64(len(tgt.Open())))
 	// Harness self-check: the class the typestate target logged is the class the plan injected.
 	for _, e := range lg.Events() {
 		if e.Target != name || e.Class == "" {
@@ -397,7 +403,7 @@ func runScripted(t *testing.T, r *rep.Reporter, c *rep.Case, sc *scenario, pl *p
 			r.Count("inj_body_"+e.Class, 1)
 		}
 	}
-	evaluate(r, c, sc, res, lg, name, bname, "", nil, map[string]any{"plan_nonok": pl.literal()})
+	evaluate(r, c, sc, res, lg, name, bname, false, nil, map[string]any{"plan_nonok": pl.literal()})
 	r.Count("events", int64(lg.Len()))
 }
 
@@ -525,12 +531,10 @@ func TestVerif(t *testing.T) {
 	mlog.DefaultLogger.Out = globalLog.output()
 
 	// Group A. Thorough: all 16384. Quick: a PRNG-determined slice of them.
-	exh := 0
 	for k := 0; k < nExhaustive; k++ {
 		if !r.Thorough() && !r.Replaying() && prng.New(r.Seed(), uint64(k), "c01-slice").Intn(16) != 0 {
 			continue
 		}
-		exh++
 		r.Run(groupExhaustive+k, fmt.Sprintf("exh-%d", k), func(c *rep.Case) {
 			sc, pl, shape := exhaustiveCase(r.Seed(), k)
 			runScripted(t, r, c, sc, pl)
@@ -542,10 +546,9 @@ func TestVerif(t *testing.T) {
 	}
 	r.Set("exhaustive_two_recipient_single_attempt_plans", r.Thorough())
 	r.Set("exhaustive_plans_total", nExhaustive)
-	_ = exh
 
 	// Group B.
-	nB := r.N(1500, 50000)
+	nB := r.N(1500, 150000)
 	for k := 0; k < nB; k++ {
 		r.Run(groupSampled+k, fmt.Sprintf("sampled-%d", k), func(c *rep.Case) {
 			sc, pl := sampledCase(r.Seed(), k)
@@ -565,7 +568,7 @@ func TestVerif(t *testing.T) {
 	}
 
 	// Group C.
-	nC := r.N(400, 8000)
+	nC := r.N(400, 20000)
 	for k := 0; k < nC; k++ {
 		r.Run(groupReal+k, fmt.Sprintf("real-%d", k), func(c *rep.Case) {
 			runRealCase(t, r, c, k)
